@@ -140,6 +140,9 @@ func dischargePanic(c *an.Ctx, ps an.PanicSite) (bool, string) {
 				return true, "count is guarded to be non-negative"
 			}
 		}
+		if an.ProveGE(n, 0, ps.Instr, 64) {
+			return true, "count is non-negative (a length, or implied by the dominating comparisons)"
+		}
 		return false, ""
 	case strings.HasPrefix(ps.Kind, "call:(reflect.Value)."):
 		cc := ps.Instr.(ssa.CallInstruction).Common()
@@ -291,7 +294,7 @@ func c13r3(c *an.Ctx) {
 			key := fmt.Sprintf("%s | loop %d is bounded or consumes input", an.ShortFunc(fn), i)
 			pos := c.P.InstrPos(firstPositioned(l.Header))
 			switch l.Class {
-			case "counted", "shrinking", "len-bounded", "range", "wait":
+			case "counted", "shrinking", "len-bounded", "range", "wait", "consuming", "reading":
 				c.Ok(key, pos, l.Class+": "+l.Detail)
 			default:
 				if splitConsumingLoop(c, l) {
